@@ -2,8 +2,14 @@
    Only statements closed by [exact]; the lemmas live in Proofs/OciCrash.v, the model in
    Model/OciCrash.v (operations compiled to file-system micro-steps; a crash is a cut of
    the interrupted operation's step list at any position) and the meaning of
-   "recoverable" in Model/OciCrashSpec.v. *)
-From Oras Require Import Base.Prelude Model.OciCrash Model.OciCrashSpec Proofs.OciCrash.
+   "recoverable" in Model/OciCrashSpec.v.
+
+   The model is configured by two facts re-read from the Go source on every run
+   (Generated/GC10.v): [src_inplace] (does writeIndexFile write index.json in place, or a
+   temporary sibling that is renamed) and [src_unlink_first] (does Store.delete remove the
+   blob before or after it rewrites index.json).  The theorems are stated for the model
+   of the CURRENT source; they stop checking when the source order changes. *)
+From Oras Require Import Base.Prelude Generated.GC10 Model.OciCrash Model.OciCrashSpec Proofs.OciCrash.
 
 (* For every digest/size verification function H, every iteration order of saveIndex,
    every history h of completed Push/Tag/Untag/Delete/SaveIndex operations on a freshly
@@ -16,9 +22,10 @@ Theorem C10_crash_safe :
   forall (H : list N -> N) (shuffle : nat -> list entry -> list entry),
     (forall c l e, In e (shuffle c l) <-> In e l) ->
     forall (h : list op) (o : op) (k : nat),
-      let s := run H shuffle false h init in
-      Recoverable H (sfs s) (crash_fs H shuffle false s o k) (sfs (run_op H shuffle false s o)).
-Proof. exact crash_safe. Qed.
+      let s := run H shuffle src_inplace src_unlink_first h init in
+      Recoverable H (sfs s) (crash_fs H shuffle src_inplace src_unlink_first s o k)
+        (sfs (run_op H shuffle src_inplace src_unlink_first s o)).
+Proof. exact crash_safe_src. Qed.
 Print Assumptions C10_crash_safe.
 
 (* the tag mapping a reader derives from index.json is the one before or the one after *)
@@ -26,10 +33,11 @@ Theorem C10_tag_mapping_before_or_after :
   forall (H : list N -> N) (shuffle : nat -> list entry -> list entry),
     (forall c l e, In e (shuffle c l) <-> In e l) ->
     forall (h : list op) (o : op) (k : nat),
-      let s := run H shuffle false h init in
-      let fsk := crash_fs H shuffle false s o k in
-      same_tags fsk (sfs s) \/ same_tags fsk (sfs (run_op H shuffle false s o)).
-Proof. exact crash_tags_before_or_after. Qed.
+      let s := run H shuffle src_inplace src_unlink_first h init in
+      let fsk := crash_fs H shuffle src_inplace src_unlink_first s o k in
+      same_tags fsk (sfs s) \/
+      same_tags fsk (sfs (run_op H shuffle src_inplace src_unlink_first s o)).
+Proof. exact crash_tags_src. Qed.
 Print Assumptions C10_tag_mapping_before_or_after.
 
 (* Effects of operations that returned are all present: after any history of completed
@@ -40,35 +48,55 @@ Theorem C10_completed_effects :
   forall (H : list N -> N) (shuffle : nat -> list entry -> list entry),
     (forall c l e, In e (shuffle c l) <-> In e l) ->
     forall (h : list op),
-      let s := run H shuffle false h init in
+      let s := run H shuffle src_inplace src_unlink_first h init in
       let bs := fst (spec_run H h (fun _ => false) (fun _ => None)) in
       let tg := snd (spec_run H h (fun _ => false) (fun _ => None)) in
       (forall d, exists_file (sfs s) (FBlob d) = bs d) /\
       exists l, read_index (sfs s) = Some l /\ forall r n, tag_of l r n <-> tg r = Some n.
-Proof. exact completed_effects. Qed.
+Proof. exact completed_effects_src. Qed.
 Print Assumptions C10_completed_effects.
+
+(* the source orders the proof relies on: temp+rename index write, index before unlink,
+   blob stored before it is tagged, ingest = create temp / copy+verify / chmod, then rename *)
+Theorem C10_source_order :
+  src_inplace = false /\ src_unlink_first = false /\ src_push_order_ok = true.
+Proof. exact (conj src_inplace_false (conj src_unlink_first_false src_push_order)). Qed.
+Print Assumptions C10_source_order.
 
 (* The code before the repair (os.WriteFile on index.json itself, [inplace = true]):
    the theorem is false.  Witness: SaveIndex on the fresh store cut after open(O_TRUNC). *)
 Theorem C10_crash_safe_refuted_inplace :
   forall (H : list N -> N),
   exists h o k,
-    let s := run H (fun _ l => l) true h init in
-    ~ Recoverable H (sfs s) (crash_fs H (fun _ l => l) true s o k)
-        (sfs (run_op H (fun _ l => l) true s o)).
+    let s := run H (fun _ l => l) true false h init in
+    ~ Recoverable H (sfs s) (crash_fs H (fun _ l => l) true false s o k)
+        (sfs (run_op H (fun _ l => l) true false s o)).
 Proof. exact crash_unsafe_inplace. Qed.
 Print Assumptions C10_crash_safe_refuted_inplace.
+
+(* Store.delete with its two effects swapped (unlink, then index): false as well.
+   Witness: push a manifest, delete it, cut after the unlink. *)
+Theorem C10_crash_safe_refuted_unlink_first :
+  exists H h o k,
+    let s := run H (fun _ l => l) false true h init in
+    ~ Recoverable H (sfs s) (crash_fs H (fun _ l => l) false true s o k)
+        (sfs (run_op H (fun _ l => l) false true s o)).
+Proof. exact crash_unsafe_unlink_first. Qed.
+Print Assumptions C10_crash_safe_refuted_unlink_first.
 
 (* The hypotheses are satisfiable and the statement is not vacuous: a concrete history
    (push a layer, push a manifest, tag it, delete it cut after the index rename). *)
 Example C10_example_instance :
   let H := fun c : list N => match c with [7; 8] => 1 | [9] => 2 | _ => 0 end in
+  let id := fun (_ : nat) (l : list entry) => l in
   let h := [Push 1 [7; 8] false; Push 2 [9] true; Tag 2 5] in
-  let s := run H (fun _ l => l) false h init in
-  recoverableb H [1; 2] (sfs s) (crash_fs H (fun _ l => l) false s (Delete 2) 4)
-    (sfs (run_op H (fun _ l => l) false s (Delete 2))) = true /\
+  let s := run H id src_inplace src_unlink_first h init in
+  let fsk := crash_fs H id src_inplace src_unlink_first s (Delete 2) 4 in
+  let fs1 := sfs (run_op H id src_inplace src_unlink_first s (Delete 2)) in
+  (forall c l e, In e (id c l) <-> In e l) /\
+  recoverableb H [1; 2] (sfs s) fsk fs1 = true /\
   read_index (sfs s) = Some [(2, Some 5)] /\
-  read_index (crash_fs H (fun _ l => l) false s (Delete 2) 4) = Some [] /\
-  exists_file (crash_fs H (fun _ l => l) false s (Delete 2) 4) (FBlob 2) = true /\
-  exists_file (sfs (run_op H (fun _ l => l) false s (Delete 2))) (FBlob 2) = false.
-Proof. vm_compute. repeat split; reflexivity. Qed.
+  read_index fsk = Some [] /\
+  exists_file fsk (FBlob 2) = true /\
+  exists_file fs1 (FBlob 2) = false.
+Proof. split; [intros; reflexivity|]. vm_compute. repeat split; reflexivity. Qed.
